@@ -753,9 +753,15 @@ class Engine:
             if attr in CONTAINER_ATTRS:
                 outs.append((nonobj, PyFunc(f".{attr}", lambda en, s, a, kw, v=v, attr=attr: en.container_method(v, attr, s, a, kw))))
             else:
-                # attribute of a builtin value that is not modelled: never guess AttributeError (DESIGN 2.4: havoc + taint)
-                self.notes.append(f"unmodelled attribute .{attr} on a non-object value")
-                outs.append((nonobj.tainted(), PyFunc(f".{attr}", None)))
+                # None has no attributes besides the dunder ones: AttributeError, exactly (NoneType cannot be patched)
+                isnone = self.fork(nonobj, v == V.None_) if not attr.startswith('__') else None
+                if isnone is not None:
+                    outs.append((isnone, Raise(self.exc_new('AttributeError'))))
+                    nonobj = self.fork(nonobj, v != V.None_)
+                # attribute of another builtin value that is not modelled: never guess AttributeError (DESIGN 2.4: havoc + taint)
+                if nonobj is not None:
+                    self.notes.append(f"unmodelled attribute .{attr} on a non-object value")
+                    outs.append((nonobj.tainted(), PyFunc(f".{attr}", None)))
         isobj = self.fork(st, V.is_Obj(v))
         if isobj is not None:
             const_term = self.const_attr_term(v, attr)
